@@ -33,6 +33,8 @@ if MODNAME not in sys.modules:
     sys.modules[MODNAME] = types.ModuleType(MODNAME)
 
 
+_FALSY_SEEDS = {"zero": 0, "empty": "", "false": False}
+
 class needs(dr.ComponentType):
     """A plain ComponentType subclass, as a user of the framework would define."""
     pass
@@ -246,6 +248,8 @@ class Graph(object):
     def seed_value(self, i):
         if self.desc["nodes"][i].get("seed") == "none":
             return None                      # a supplied value that happens to be None is still a supplied value
+        if self.desc["nodes"][i].get("seed") in _FALSY_SEEDS:
+            return _FALSY_SEEDS[self.desc["nodes"][i]["seed"]]    # falsy but real supplied values
         return ("seed", self.nodes[i].__name__)
 
     def make_broker(self, store_skips=None, observers=True, seeds=True, extra=None):
@@ -363,12 +367,14 @@ def ref_eval(desc, names, in_graph=None):
             r.status = "outside"
             if nd.get("seed"):
                 r.present = True
-                r.value = None if nd.get("seed") == "none" else ("seed", names[i])
+                r.value = (None if nd.get("seed") == "none" else _FALSY_SEEDS[nd["seed"]] if nd.get("seed") in _FALSY_SEEDS
+                       else ("seed", names[i]))
             continue
         if nd.get("seed"):
             r.status = "seeded"
             r.present = True
-            r.value = None if nd.get("seed") == "none" else ("seed", names[i])
+            r.value = (None if nd.get("seed") == "none" else _FALSY_SEEDS[nd["seed"]] if nd.get("seed") in _FALSY_SEEDS
+                       else ("seed", names[i]))
             continue
         if nd.get("en", True) is False:
             r.status = "disabled"
